@@ -19,7 +19,7 @@ package grpchan
 //@   ensures[C15] registered: has(m, old(desc.ServiceName)) && m[old(desc.ServiceName)].desc == desc && m[old(desc.ServiceName)].handler == h
 //@   ensures[C15] was_not_registered_before: !old(has(m, desc.ServiceName)) && lastresult("reflect.Type.Implements")
 //@   ensures[C15] others_untouched: forall k string :: k != old(desc.ServiceName) ==> has(m, k) == old(has(m, k)) && m[k] == old(m[k])
-//@   assert_call[C15] reflect.Type.Implements : handler_type_against_service_interface: arg0 == lastresult("reflect.TypeOf") && arg1 == lastresult("reflect.Type.Elem")
+//@   assert_call[C15] reflect.Type.Implements : handler_type_against_service_interface: arg0 == rtype_of(h) && arg1 == rtype_elem(rtype_of(desc.HandlerType))
 //@   modifies mapof(m)
 //
 //@ func (HandlerMap).ForEach
@@ -45,14 +45,14 @@ package grpchan
 //@   loop loop#2 invariant[C15] cur_desc2: has(m, svc.desc.ServiceName)
 //@   loop loop#2 invariant[C15] cur_desc3: m[svc.desc.ServiceName].desc == svc.desc
 //@   loop loop#2 invariant[C15] cur_desc4: ret != nil
-//@   loop loop#2 invariant[C15] cur_len: len(methods) == rangeindex + 1 && rangeindex < len(svc.desc.Methods) && fresh_backing(methods)
-//@   loop loop#2 invariant[C15] cur_cap: cap(methods) == len(svc.desc.Methods) + len(svc.desc.Streams)
+//@   loop loop#2 invariant[C15] aux cur_len: len(methods) == rangeindex + 1 && rangeindex < len(svc.desc.Methods) && fresh_backing(methods)
+//@   loop loop#2 invariant[C15] aux cur_cap: cap(methods) == len(svc.desc.Methods) + len(svc.desc.Streams)
 //@   loop loop#2 invariant[C15] cur_unary: forall j int :: 0 <= j && j <= rangeindex ==> unary_info_ok(methods[j], svc.desc.Methods[j])
 //@   loop loop#3 invariant[C15] keys_ok: forall k string :: has(m, k) ==> m[k].desc != nil && m[k].desc.ServiceName == k
 //@   loop loop#3 invariant[C15] outer_kept: forall k string :: forall j int :: iter_visited(k) && has(m, k) && k != svc.desc.ServiceName ==> info_ok(ret, m[k].desc, j) && backing(ret[k].Methods) != backing(methods)
 //@   loop loop#3 invariant[C15] cur_desc: svc.desc != nil && has(m, svc.desc.ServiceName) && m[svc.desc.ServiceName].desc == svc.desc && ret != nil
-//@   loop loop#3 invariant[C15] cur_len: len(methods) == len(svc.desc.Methods) + rangeindex#2 + 1 && rangeindex#2 < len(svc.desc.Streams) && fresh_backing(methods)
-//@   loop loop#3 invariant[C15] cur_cap: cap(methods) == len(svc.desc.Methods) + len(svc.desc.Streams)
+//@   loop loop#3 invariant[C15] aux cur_len: len(methods) == len(svc.desc.Methods) + rangeindex#2 + 1 && rangeindex#2 < len(svc.desc.Streams) && fresh_backing(methods)
+//@   loop loop#3 invariant[C15] aux cur_cap: cap(methods) == len(svc.desc.Methods) + len(svc.desc.Streams)
 //@   loop loop#3 invariant[C15] cur_unary: forall j int :: 0 <= j && j < len(svc.desc.Methods) ==> unary_info_ok(methods[j], svc.desc.Methods[j])
 //@   loop loop#3 invariant[C15] cur_streams: forall j int :: 0 <= j && j <= rangeindex#2 ==> stream_info_ok(methods[len(svc.desc.Methods) + j], svc.desc.Streams[j])
 //@   ensures[C15] every_registration_reported: forall k string :: forall j int :: has(m, k) ==> info_ok(result, m[k].desc, j)
@@ -121,12 +121,12 @@ package grpchan
 //@   ensures[C16] otherwise_a_fresh_description: !(unaryInt$entry == nil && streamInt$entry == nil) ==> fresh(result) && result.ServiceName == old(svcDesc.ServiceName) && result.HandlerType == old(svcDesc.HandlerType) && result.Metadata == old(svcDesc.Metadata)
 //@   ensures[C16] unary_untouched_without_unary_interceptor: unaryInt$entry == nil && streamInt$entry != nil ==> result.Methods == old(svcDesc.Methods)
 //@   ensures[C16] streams_untouched_without_stream_interceptor: streamInt$entry == nil && unaryInt$entry != nil ==> result.Streams == old(svcDesc.Streams)
-//@   loop loop#1 invariant[C16] len(intercepted.Methods) == len(svcDesc.Methods) && fresh_backing(intercepted.Methods) && unaryInt == unaryInt$entry && unaryInt$entry != nil
+//@   loop loop#1 invariant[C16] aux whole_copy_being_rewritten: len(intercepted.Methods) == len(svcDesc.Methods) && fresh_backing(intercepted.Methods) && unaryInt == unaryInt$entry && unaryInt$entry != nil
 //@   loop loop#1 invariant[C16] names_so_far: forall j int :: 0 <= j && j <= rangeindex ==> intercepted.Methods[j].MethodName == svcDesc.Methods[j].MethodName
 //@   loop loop#1 invariant[C16] w1: forall j int :: 0 <= j && j <= rangeindex ==> isfunc(intercepted.Methods[j].Handler, "InterceptServer.field:Handler#1")
 //@   loop loop#1 invariant[C16] w2: forall j int :: 0 <= j && j <= rangeindex ==> *binding(intercepted.Methods[j].Handler, 0, "*grpc.UnaryServerInterceptor") == unaryInt$entry
 //@   loop loop#1 invariant[C16] w3: forall j int :: 0 <= j && j <= rangeindex ==> *binding(intercepted.Methods[j].Handler, 1, "*grpc.methodHandler") == svcDesc.Methods[j].Handler
-//@   loop loop#2 invariant[C16] len(intercepted.Streams) == len(svcDesc.Streams) && fresh_backing(intercepted.Streams) && streamInt == streamInt$entry && streamInt$entry != nil
+//@   loop loop#2 invariant[C16] aux whole_copy_being_rewritten: len(intercepted.Streams) == len(svcDesc.Streams) && fresh_backing(intercepted.Streams) && streamInt == streamInt$entry && streamInt$entry != nil
 //@   loop loop#2 invariant[C16] s_names: forall j int :: 0 <= j && j <= rangeindex#2 ==> intercepted.Streams[j].StreamName == svcDesc.Streams[j].StreamName && intercepted.Streams[j].ClientStreams == svcDesc.Streams[j].ClientStreams && intercepted.Streams[j].ServerStreams == svcDesc.Streams[j].ServerStreams
 //@   loop loop#2 invariant[C16] s1: forall j int :: 0 <= j && j <= rangeindex#2 ==> isfunc(intercepted.Streams[j].Handler, "InterceptServer.field:Handler#2")
 //@   loop loop#2 invariant[C16] s2: forall j int :: 0 <= j && j <= rangeindex#2 ==> *binding(intercepted.Streams[j].Handler, 0, "*grpc.StreamServerInterceptor") == streamInt$entry
